@@ -398,20 +398,48 @@ def run_impl_seq(prop, hbin, ops, seed, tier, crashes=None):
             while hi < len(todo) and todo[hi].split(" ")[0] != "reset":
                 hi += 1
         case = todo[lo:hi]
-        again = 0
+        again, alone_ok = 0, None
         for _ in range(2):
             rc2, out2, err2 = sh([hbin, "run"], env=env, stdin="\n".join(case) + "\n", timeout=prop.run_timeout[tier])
             if rc2 not in (0, 124):
                 again += 1
                 err = err2
+            elif rc2 == 0:
+                alone_ok = [l for l in out2.splitlines() if l.strip()]
         trace = [l for l in err.splitlines() if l.strip()]
         head = next((l for l in trace if l.startswith("panic:") or l.startswith("fatal error:")), trace[0] if trace else "")
-        crashes.append({"case": case, "rc": rc, "panic": head[:300], "trace": "\n".join(trace[:40])[:4000],
-                        "crashed_again_alone": "%d of 2" % again})
-        ncrash += 1
         kept = [l for l in lines if not l.startswith("#")][:lo]
         out_lines += kept
         pos += hi
+        if again == 0 and alone_ok is not None and runtime_internal(trace) \
+                and len([l for l in alone_ok if not l.startswith("#")]) == len(case):
+            # a fatal error of the Go runtime itself (no frame of the code under test or of the harness in the goroutine
+            # that died) which does not happen again when the case runs alone says nothing about the property: the
+            # case's output is taken from the run alone, and the event is counted in the evidence
+            out_lines += alone_ok + ["#stat crash.go-runtime-internal-not-reproduced 1"]
+            continue
+        crashes.append({"case": case, "rc": rc, "panic": head[:300], "trace": "\n".join(trace[:40])[:4000],
+                        "crashed_again_alone": "%d of 2" % again})
+        ncrash += 1
+
+
+def runtime_internal(trace):
+    """True when the goroutine that died (the first one printed after `fatal error:`) has only frames of package runtime."""
+    try:
+        i = next(k for k, l in enumerate(trace) if l.startswith("fatal error:"))
+    except StopIteration:
+        return False        # a panic is raised by code, not by the runtime's own consistency checks
+    frames = []
+    seen = False
+    for l in trace[i + 1:]:
+        if l.startswith("goroutine "):
+            if seen:
+                break
+            seen = True
+            continue
+        if seen and not l.startswith(("\t", " ")) and "(" in l:
+            frames.append(l)
+    return bool(frames) and all(f.startswith("runtime.") for f in frames)
 
 
 def retry_hangs(prop, hbin, env, tier, lines):
